@@ -246,13 +246,13 @@ static void multi_case(Case& c) {
             int sm = 0, se = 0; for (auto& mm : h.m) sm += mm(a, b); for (auto& ee : h.e) se += ee(a, b);
             h.i(a, b) = sm; h.te(a, b) = se; h.th(a, b) = h.s(a, b) + se + sm + h.r(a, b);
         }
-        h.suitable = find_suitable_cells<int>(h.th);
+        h.suitable = suitable_cells_of(h.th);
     }
     // MultiHostPool iterates over the first host's list; callers often give every pool the list of all cells with any host
     bool shared_suit = rng.coin(50);
     if (shared_suit) {
         IRaster all(rows, cols, 0); for (auto& h : hs) all += h->th;
-        auto u = find_suitable_cells<int>(all);
+        auto u = suitable_cells_of(all);
         for (auto& h : hs) h->suitable = u;
         stats.add("suitable_union");
     } else stats.add("suitable_own");
